@@ -100,3 +100,35 @@ pub async fn dial(ctx: &ctx::Ctx, addr: std::net::SocketAddr, me: &Config, genes
 pub fn inbound_keys(net: &crate::Network) -> Vec<node::PublicKey> {
     net.gossip.inbound.current().keys().cloned().collect()
 }
+
+// ---------------------------------------------------------------------------------------------
+// Adversarial dialling: stop after any stage of the connection establishment and write arbitrary bytes
+
+impl Dialed {
+    /// Writes `bytes` into the encrypted stream and flushes. Returns false if the stream refused them.
+    pub async fn send_raw(&mut self, ctx: &ctx::Ctx, bytes: &[u8]) -> bool {
+        async {
+            zksync_concurrency::io::write_all(ctx, &mut self.0, bytes).await.ok()?.ok()?;
+            zksync_concurrency::io::flush(ctx, &mut self.0).await.ok()?.ok()
+        }
+        .await
+        .is_some()
+    }
+}
+
+/// TCP connect + encryption frame + noise handshake; neither the endpoint frame nor the identity handshake is sent.
+pub async fn dial_noise(ctx: &ctx::Ctx, addr: std::net::SocketAddr) -> Result<Dialed, String> {
+    let r: ctx::Result<crate::noise::Stream> = async {
+        let mut stream = crate::metrics::MeteredStream::connect(ctx, addr).await?;
+        crate::frame::send_proto(ctx, &mut stream, &crate::preface::Encryption::NoiseNN).await?;
+        Ok(crate::noise::Stream::client_handshake(ctx, stream).await?)
+    }
+    .await;
+    r.map(Dialed).map_err(|e| format!("{e:?}").lines().next().unwrap_or("").to_string())
+}
+
+/// The complete preface (incl. the endpoint frame); the identity handshake is not sent.
+pub async fn dial_preface(ctx: &ctx::Ctx, addr: std::net::SocketAddr, consensus: bool) -> Result<Dialed, String> {
+    let ep = if consensus { crate::preface::Endpoint::ConsensusNet } else { crate::preface::Endpoint::GossipNet };
+    crate::preface::connect(ctx, addr, ep).await.map(Dialed).map_err(|e| format!("{e:?}").lines().next().unwrap_or("").to_string())
+}
